@@ -515,6 +515,8 @@ def measure_facts():
     b = Built(W_PLAIN2, [0], 'json')
     f['docSingleKey'] = (b.request(('keys', ['foo', 'bar']))[0] == 'Client.fault' and b.request(('keys', []))[0] == 'Client.fault'
                          and b.request(('keys', ['foo']))[0] == ok)
+    f['protoSingleApp'] = all(protocol_reuse('json', t_, n_, sl_)[0] is not None
+                              for t_, n_, sl_ in (('tns', None, 'in'), ('tns', None, 'out'), ('urn:other', None, 'in'), ('tns', 'Other', 'in')))
     b = Built(W_NOADDR, [0], 'http')
     adr = None if b.error else [p_.address for p_ in b.server._http_patterns]
     f['patternDefault'] = {('/fetch',): 'publicName', ('/get_thing',): 'functionName'}.get(tuple(adr or ()), 'other')
@@ -544,7 +546,7 @@ GOOD = {'auxFirst': 'insertFront', 'ifaceDup': 'reject', 'qualify': 'unlessBrace
         'emptyIsNotFound': True, 'patternDup': 'reject', 'binNames': 'strictUtf8',
         'wsdlPath': 'dotWsdlSuffix', 'wsdlQuery': 'firstName', 'wsdlGetOnly': True,
         'memberKeyPrefixed': True, 'mixedAuxRefused': True, 'docSingleKey': True,
-        'patternDefault': 'publicName', 'soapBody': 'directChild'}
+        'patternDefault': 'publicName', 'soapBody': 'directChild', 'protoSingleApp': True}
 FACT_WITNESS = {
     'auxFirst': ('an auxiliary service listed before the primary service of the same method name',
                  {'spec': W_AUXFIRST, 'order': [0, 1], 'other_order': [1, 0]}),
@@ -566,6 +568,9 @@ FACT_WITNESS = {
     'mixedAuxRefused': ('a service definition with a primary and an auxiliary method must be refused', {'spec': W_MIXED, 'order': [0]}),
     'docSingleKey': ('a JSON document with two keys (naming two methods) must run nothing',
                      {'spec': W_PLAIN2, 'order': [0], 'proto': 'json', 'request': ['keys', ['foo', 'bar']]}),
+    'protoSingleApp': ('the in_protocol instance of one Application handed to a second, different Application (same tns and name) must be refused; '
+                       'otherwise requests to the first application are looked up in the second one',
+                       {'op': 'protocol-reuse', 'proto': 'json', 'tns2': 'tns', 'name2': None, 'slot': 'in'}),
     'patternDefault': ("HttpPattern(verb='GET') without an address on get_thing(_in_message_name='fetch') must answer GET /fetch, and GET /get_thing must be not-found",
                        {'spec': W_NOADDR, 'order': [0], 'proto': 'http', 'request': ['http', 'GET', '/get_thing', '']}),
     'soapBody': ('a SOAP request for foo whose Header relays a message with a Body naming bar must run foo',
@@ -604,6 +609,7 @@ def facts11 : Facts11 where
   mixedAuxRefused := %s
   docSingleKey := %s
   patternDefault := .%s
+  protoSingleApp := %s
   soapBody := .%s
 
 end SpyneModel.Generated
@@ -611,7 +617,7 @@ end SpyneModel.Generated
        b(f['docPrefixesTns']), b(f['emptyIsNotFound']), f['patternDup'], f['binNames'],
        f['wsdlPath'], f['wsdlQuery'], b(f['wsdlGetOnly']),
        b(f['memberKeyPrefixed']), b(f['mixedAuxRefused']), b(f['docSingleKey']),
-       f['patternDefault'], f['soapBody'])
+       f['patternDefault'], b(f['protoSingleApp']), f['soapBody'])
 
 
 # ------------------------------------------------------------------------------------ generators
@@ -892,6 +898,9 @@ def directed_specs():
     out.append(('patterns-disjoint-verbs', {'tns': 'tns', 'services': [S('A', [f(1, 'foo', patterns=[P(['GET'], '/r')]), f(2, 'bar', patterns=[P(['DELETE'], '/r')])])]}))
     out.append(('patterns-identical', W_PATDUP))
     out.append(('patterns-overlap-verbs', {'tns': 'tns', 'services': [S('A', [f(1, 'foo', patterns=[P(None, '/r')])]), S('B', [f(2, 'bar', patterns=[P(['GET'], '/r')])])]}))
+    out.append(('patterns-one-fragment', {'tns': 'tns', 'services': [S('Docs', [f(1, 'get_doc', patterns=[P(['GET'], '/docs/{name}')]), f(2, 'get_raw', patterns=[P(['GET'], '/docs/{name}/raw')]),
+                                                                               f(3, 'get_img', patterns=[P(None, '/img/<name>')]), f(4, 'get_thumb', patterns=[P(None, '/img/<name>/thumb/{size}')]),
+                                                                               f(5, 'tail', patterns=[P(['GET'], '/t/{a}-{b}')])])]}))
     out.append(('patterns-no-address', {'tns': 'tns', 'services': [S('Things', [f(1, 'get_thing', patterns=[P(['GET'], None)], **{'in': 'fetch'}), f(2, 'impl', op='list', patterns=[P(None, None)]),
                                                                                 f(3, 'plain', patterns=[P(['GET', 'HEAD'], None), P(['DELETE'], '/del/<x>')])]),
                                                                    S('Other', [f(4, 'lookup', **{'in': 'get_thing'}), f(5, 'impl2', **{'in': '{%s}impl' % OTHER_NS})])]}))
@@ -1166,6 +1175,14 @@ def pattern_requests(ctx, spec):
                             reqs += [('http', (v or ['GET'])[0], '/' + nm_), ('http', rng.choice(verbs), '/a/' + nm_)]
                     continue
                 reqs.append(('http', (v or ['GET'])[0], fill(rng, addr)))
+                if '<' in addr or '{' in addr:
+                    # a placeholder stands for one fragment: a value with a '/' inside, extra fragments before / after
+                    wide = re.sub(r'<[A-Za-z0-9_]+>|\{[A-Za-z0-9_]+\}', 'a/b', addr)
+                    wide = wide if wide.startswith('/') else '/' + wide
+                    one = re.sub(r'<[A-Za-z0-9_]+>|\{[A-Za-z0-9_]+\}', 'v', addr)
+                    one = one if one.startswith('/') else '/' + one
+                    for pth in (wide, one + '/raw', one + '/x/y', '/pre' + one):
+                        reqs.append(('http', (v or ['GET'])[0], pth))
                 reqs.append(('http', (v or ['DELETE'])[-1], fill(rng, addr)))
                 for _ in range(3):
                     reqs.append(('http', rng.choice(verbs), fill(rng, addr, near=rng.random() < 0.6)))
@@ -1186,6 +1203,58 @@ def ambiguous_patterns(spec):
         if f1 != f2 and a1 == a2 and (v1 is None or v2 is None or v1 & v2):
             res.append([f1, f2, a1])
     return res
+
+
+W_REUSE_A = {'tns': 'tns', 'services': [_svc('Public', [{'fid': 1, 'func': 'ping'}, {'fid': 2, 'func': 'both'}])]}
+W_REUSE_B = {'tns': 'tns', 'services': [_svc('Admin', [{'fid': 3, 'func': 'wipe'}, {'fid': 4, 'func': 'both'}])]}
+
+
+def protocol_reuse(proto_name, tns2, name2, slot):
+    """give the in-protocol instance of a first application to a second, different Application (as its in- or
+    out-protocol): spyne must refuse. If it does not, requests to the FIRST application are what matters."""
+    from spyne import Application
+    from spyne.server.wsgi import WsgiApplication
+    calls = []
+    inp, outp = proto_pair(proto_name)
+    svcs_a, _ = make_services(W_REUSE_A, [0], calls)
+    app_a = Application(svcs_a, 'tns', in_protocol=inp, out_protocol=outp)
+    faults = []
+    app_a.event_manager.add_listener('method_exception_object', lambda c: faults.append(str(c.out_error.faultcode)))
+    server_a = WsgiApplication(app_a)
+    svcs_b, _ = make_services(W_REUSE_B, [0], calls)
+    kw = {'in_protocol': inp, 'out_protocol': proto_pair(proto_name)[1]} if slot == 'in' else \
+         {'in_protocol': proto_pair(proto_name)[0], 'out_protocol': inp}
+    try:
+        Application(svcs_b, tns2, name=name2, **kw)
+        refused = None
+    except Exception as e:
+        refused = type(e).__name__
+    b = Built.__new__(Built)
+    b.spec, b.order, b.proto, b.calls, b.faults, b.wsdl_hits, b.error, b.app, b.server, b.env = \
+        W_REUSE_A, [0], proto_name, calls, faults, [], None, app_a, server_a, {'classes': []}
+    kind = {'json': 'key', 'msgpackrpc': 'rpc', 'http': 'http'}[proto_name]
+    mk = (lambda n: ('http', 'GET', '/' + n)) if kind == 'http' else (lambda n: (kind, n))
+    return refused, {n: b.request(mk(n))[0] for n in ('ping', 'wipe', 'both')}
+
+
+def check_protocol_reuse(ctx):
+    """T3 (directed, every run): a request must run a method registered in ITS application only"""
+    expected = {'ping': {'ran': [1]}, 'wipe': 'Client.ResourceNotFound', 'both': {'ran': [2]}}
+    for proto_name in ('json', 'msgpackrpc', 'http'):
+        for tns2, name2 in (('tns', None), ('tns', 'Application'), ('urn:other', None), ('tns', 'Other')):
+            for slot in ('in', 'out'):
+                refused, got = protocol_reuse(proto_name, tns2, name2, slot)
+                ctx.case({'op': 'protocol-reuse', 'proto': proto_name, 'tns2': tns2, 'name2': name2, 'slot': slot})
+                ctx.hit('protocol-reuse:' + ('refused' if refused else 'accepted'))
+                ctx.cov['traces_validated_against_impl'] += 1
+                if got != expected:
+                    bad = [n for n in expected if got[n] != expected[n]][0]
+                    ctx.finding('protocol-reuse:foreign-method', 'the %s protocol instance of an application (ping, both) was also given to a '
+                                'second Application(tns=%r, name=%r) with other services (wipe, both) as its %s-protocol (%s); afterwards the request %r '
+                                'to the FIRST application was answered with %r instead of %r' % (
+                                    proto_name, tns2, name2, slot, 'refused: ' + refused if refused else 'accepted', bad, got[bad], expected[bad]),
+                                {'op': 'protocol-reuse', 'proto': proto_name, 'tns2': tns2, 'name2': name2, 'slot': slot, 'got': got})
+    return None
 
 
 def run(ctx):
@@ -1239,6 +1308,9 @@ def run(ctx):
             gc.freeze()
         if ctx.thorough and i % 100 == 99:
             ctx.log('specs done: %d/%d, evaluations %d' % (i + 1, len(specs), ctx.cov['evaluations']))
+
+    # ---- one protocol instance, two applications (T3, directed)
+    check_protocol_reuse(ctx)
 
     # ---- standalone address / verb matching (T2 against the real HttpPattern regexes)
     address_cases(ctx, Q)
@@ -1393,6 +1465,20 @@ def declared_patterns(spec, names):
     return _DECL_CACHE[key][1]
 
 
+def own_address_re(address):
+    """the documented meaning of an HttpPattern address, compiled by the harness itself (not by spyne): '<name>' and
+    '{name}' stand for ONE path fragment (no '/'), everything else is literal text"""
+    if not address.startswith('/'):
+        address = '/' + address
+    out, i = [], 0
+    for m in re.finditer(r'<[A-Za-z0-9_]+>|\{[A-Za-z0-9_]+\}', address):
+        out.append(re.escape(address[i:m.start()]))
+        out.append('[^/]*')
+        i = m.end()
+    out.append(re.escape(address[i:]))
+    return re.compile(''.join(out))
+
+
 def pattern_expected(spec, names, r):
     """for an HTTP request: (address, fid, public name) of the declared patterns that match verb and path completely"""
     verb, path = r[1], r[2]
@@ -1406,8 +1492,7 @@ def pattern_expected(spec, names, r):
             m = p.verb_re.match(verb)
             if m is None or m.span() != (0, len(verb)):
                 continue
-        m = p.address_re.match(path)
-        if m is None or m.span() != (0, len(path)):
+        if own_address_re(p.address).fullmatch(path) is None:
             continue
         res.append((p.address, fid, name))
     return res
@@ -1627,6 +1712,11 @@ def replay(ctx, obj):
     """re-execute a single recorded case on the implementation and on the model"""
     logging.disable(logging.CRITICAL)
     print('replay of:', obj.get('what'))
+    if obj.get('op') == 'protocol-reuse':
+        refused, got = protocol_reuse(obj['proto'], obj['tns2'], obj['name2'], obj['slot'])
+        print('second Application(...) with the shared %s-protocol: %s' % (obj['slot'], 'refused with ' + refused if refused else 'ACCEPTED'))
+        print('requests to the first application (ping, both registered there; wipe only in the second):', got)
+        return 0
     spec = obj.get('spec') or (obj.get('query') or {}).get('spec')
     if not spec:
         for d in obj.get('disagreements') or []:
